@@ -437,4 +437,131 @@ def hashShape_VisitVarArg : Sx :=
     .n "ReturnStmt" "" [
      .n "DeclRefExpr" "hash" []]]]
 
+def helperShape_CallExpr_arg : Sx :=
+  .n "CXXMethodDecl" "" [
+   .n "ParmVarDecl" "index : int" [],
+   .n "CompoundStmt" "" [
+    .n "CXXStaticCastExpr" "void" [
+     .n "IntegerLiteral" "0" []],
+    .n "ReturnStmt" "" [
+     .n "CallExpr" "" [
+      .n "DeclRefExpr" "Create" [],
+      .n "ArraySubscriptExpr" "" [
+       .n "MemberExpr" "args" [
+        .n "CXXMemberCallExpr" "" [
+         .n "MemberExpr" "impl" [
+          .n "CXXThisExpr" "" []]]],
+       .n "DeclRefExpr" "index" []]]]]]
+
+def helperShape_CallExpr_function : Sx :=
+  .n "CXXMethodDecl" "" [
+   .n "CompoundStmt" "" [
+    .n "ReturnStmt" "" [
+     .n "MemberExpr" "func" [
+      .n "CXXMemberCallExpr" "" [
+       .n "MemberExpr" "impl" [
+        .n "CXXThisExpr" "" []]]]]]]
+
+def helperShape_CallExpr_num_args : Sx :=
+  .n "CXXMethodDecl" "" [
+   .n "CompoundStmt" "" [
+    .n "ReturnStmt" "" [
+     .n "MemberExpr" "num_args" [
+      .n "CXXMemberCallExpr" "" [
+       .n "MemberExpr" "impl" [
+        .n "CXXThisExpr" "" []]]]]]]
+
+def helperShape_Function_eq : Sx :=
+  .n "CXXMethodDecl" "" [
+   .n "ParmVarDecl" "other : mp::Function" [],
+   .n "CompoundStmt" "" [
+    .n "ReturnStmt" "" [
+     .n "BinaryOperator" "==" [
+      .n "MemberExpr" "impl_" [
+       .n "CXXThisExpr" "" []],
+      .n "MemberExpr" "impl_" [
+       .n "DeclRefExpr" "other" []]]]]]
+
+def helperShape_Function_name : Sx :=
+  .n "CXXMethodDecl" "" [
+   .n "CompoundStmt" "" [
+    .n "ReturnStmt" "" [
+     .n "MemberExpr" "name" [
+      .n "MemberExpr" "impl_" [
+       .n "CXXThisExpr" "" []]]]]]
+
+def helperShape_Function_ne : Sx :=
+  .n "CXXMethodDecl" "" [
+   .n "ParmVarDecl" "other : mp::Function" [],
+   .n "CompoundStmt" "" [
+    .n "ReturnStmt" "" [
+     .n "BinaryOperator" "!=" [
+      .n "MemberExpr" "impl_" [
+       .n "CXXThisExpr" "" []],
+      .n "MemberExpr" "impl_" [
+       .n "DeclRefExpr" "other" []]]]]]
+
+def helperShape_PLTerm_arg : Sx :=
+  .n "CXXMethodDecl" "" [
+   .n "CompoundStmt" "" [
+    .n "ReturnStmt" "" [
+     .n "CallExpr" "" [
+      .n "DeclRefExpr" "Create" [],
+      .n "MemberExpr" "arg" [
+       .n "CXXMemberCallExpr" "" [
+        .n "MemberExpr" "impl" [
+         .n "CXXThisExpr" "" []]]]]]]]
+
+def helperShape_PLTerm_breakpoint : Sx :=
+  .n "CXXMethodDecl" "" [
+   .n "ParmVarDecl" "index : int" [],
+   .n "CompoundStmt" "" [
+    .n "CXXStaticCastExpr" "void" [
+     .n "IntegerLiteral" "0" []],
+    .n "ReturnStmt" "" [
+     .n "ArraySubscriptExpr" "" [
+      .n "MemberExpr" "data" [
+       .n "CXXMemberCallExpr" "" [
+        .n "MemberExpr" "impl" [
+         .n "CXXThisExpr" "" []]]],
+      .n "BinaryOperator" "+" [
+       .n "BinaryOperator" "*" [
+        .n "IntegerLiteral" "2" [],
+        .n "DeclRefExpr" "index" []],
+       .n "IntegerLiteral" "1" []]]]]]
+
+def helperShape_PLTerm_num_breakpoints : Sx :=
+  .n "CXXMethodDecl" "" [
+   .n "CompoundStmt" "" [
+    .n "ReturnStmt" "" [
+     .n "MemberExpr" "num_breakpoints" [
+      .n "CXXMemberCallExpr" "" [
+       .n "MemberExpr" "impl" [
+        .n "CXXThisExpr" "" []]]]]]]
+
+def helperShape_PLTerm_slope : Sx :=
+  .n "CXXMethodDecl" "" [
+   .n "ParmVarDecl" "index : int" [],
+   .n "CompoundStmt" "" [
+    .n "CXXStaticCastExpr" "void" [
+     .n "IntegerLiteral" "0" []],
+    .n "ReturnStmt" "" [
+     .n "ArraySubscriptExpr" "" [
+      .n "MemberExpr" "data" [
+       .n "CXXMemberCallExpr" "" [
+        .n "MemberExpr" "impl" [
+         .n "CXXThisExpr" "" []]]],
+      .n "BinaryOperator" "*" [
+       .n "IntegerLiteral" "2" [],
+       .n "DeclRefExpr" "index" []]]]]]
+
+def helperShape_StringLiteral_value : Sx :=
+  .n "CXXMethodDecl" "" [
+   .n "CompoundStmt" "" [
+    .n "ReturnStmt" "" [
+     .n "MemberExpr" "value" [
+      .n "CXXMemberCallExpr" "" [
+       .n "MemberExpr" "impl" [
+        .n "CXXThisExpr" "" []]]]]]]
+
 end MpVerif.C18.Frozen
